@@ -3,8 +3,38 @@ COMMON_ASSUME = [
     "the hand-written Coq model describes the code only as far as the correspondence run of this check exercises it",
     "rustc/cargo, OCaml and the extraction mechanism are trusted to run the two sides faithfully",
 ]
+NOT_APPLICABLE = {}
 PROPS = {
+    "C09": {
+        "claim": "Coq theorems (closed, no axioms) over executable mirrors of every (S)LEB128 codec in the code: Nat::decode, Int::decode, the "
+                 "typed deserializer's 9-byte fast paths with their fall-backs, and the 128-bit decoders map EVERY terminated byte string of ANY "
+                 "length and padding to exactly its mathematical value and rest (128-bit: exactly when in range, in debug and release, never a panic); "
+                 "unterminated input is an error; the spec encoders are value-correct, terminated and minimal, and the leb128-crate loops, the "
+                 "128-bit encoders and Nat::encode (both branches) equal them. The mirrors are tied to /repo by a differential run of all "
+                 "decoders/encoders standalone and inside messages, vectors and maps (debug and release).",
+        "note": "Not proved: Int::encode's big-number branch (bit repacking of to_signed_bytes_le) equals the spec encoder -- tied by the "
+                "differential run only (every +-2^k+-2 up to 2^200 and random values). Trusted: Coq kernel, extraction, glue. Modelled not "
+                "verified: num-bigint radix/byte conversions, leb128 crate, io::Cursor.",
+        "props_file": "props/C09.v",
+        "shards": (4, 16),
+        "release": True,
+        "rule": "cases: every 1-byte string and (thorough: every, quick: 1/16 of) 2-byte strings through all decoders; all 2^24 3-byte strings as "
+                "digests of 65536 results (thorough: 256 digests per decoder spread over shards); boundary families of length 7-11, 17-22, 37 "
+                "with every sign/padding/continuation pattern; random terminated strings up to 40 bytes, unterminated strings; strings inside "
+                "Vec<Nat>, Vec<Int>, BTreeMap<u8,Int> and IDLValue; integers +-2^k+{-2..2} for k<=200 and random ones through all encoders and a "
+                "round-trip predicate; debug and release builds. Non-trivial = multi-byte string / value above 62 bits; distinct = distinct (op, arguments).",
+        "assumptions": COMMON_ASSUME + ["num-bigint to_radix_le/from_radix_le/to_signed_bytes_le and the leb128 crate are modelled by their documented behaviour"],
+        "trusted_base": ["modelled, not verified: num-bigint (to_radix_le, from_radix_le, to_signed_bytes_le, to_u64/to_i64), leb128 crate write::{unsigned,signed}, std::io::Cursor"],
+    },
     "C15": {
+        "claim": "Coq theorems (closed, no axioms) over the executable model: the code's hash (constants read from both Rust copies on every run) "
+                 "equals the spec polynomial for every byte string; the two copies are one function; label eq/order/hash factor through the id; "
+                 "sort+check_unique accepts exactly duplicate-free id lists and what it accepts is exactly what the header parser's ascending test "
+                 "accepts. Tied to /repo by a differential run through idl_hash, Label, both text parsers, the binary header, derive and "
+                 "record!/variant!, plus a direct cross-form predicate.",
+        "note": "Trusted: Coq kernel, extraction (ExtrOcamlBasic), driver.ml/harness glue, tools/consts.py. Modelled not verified: logos/LALRPOP "
+                "generated code, sort_unstable_by_key. The derive macro's hash copy is tied by its literal constants (translator) and by the "
+                "field order of ty() on a fixed corpus.",
         "props_file": "props/C15.v",
         "shards": (2, 16),
         "rule": "cases: label strings (ASCII identifiers, Candid keywords, arbitrary Unicode scalars, numeric-looking names, known "
